@@ -94,7 +94,24 @@ def main(tier):
 
     # ---------------- implementation runs (crash isolated)
     cases, bytecases, mal = gen_cases(ck, tier)
-    r = ck.impl("c04", {"cases": cases + mal, "bytes": bytecases}, timeout=1500)
+    rng = ck.rng
+    # pairs of packed tensors: equal shapes, and shapes that differ only in rows hidden by the padding (same packed rows)
+    pairs = []
+    for bits in (2, 4):
+        vpi = 8 // bits
+        for R in (vpi * 2, vpi * 3 - 1, vpi + 1, 5, 11, 12):
+            for tr in ([], [3]):
+                n = R * prod(tr)
+                d1 = [rng.randrange(2**bits) for _ in range(n)]
+                pairs.append({"a": {"bits": bits, "shape": [R] + tr, "data": d1}, "b": {"bits": bits, "shape": [R] + tr, "data": list(d1)}})
+                d2 = list(d1)
+                d2[rng.randrange(n)] ^= 1
+                pairs.append({"a": {"bits": bits, "shape": [R] + tr, "data": d1}, "b": {"bits": bits, "shape": [R] + tr, "data": d2}})
+                if R % vpi != 0:
+                    # one more row, all zero: the packed payloads coincide, the tensors do not
+                    w = prod(tr)
+                    pairs.append({"a": {"bits": bits, "shape": [R] + tr, "data": d1}, "b": {"bits": bits, "shape": [R + 1] + tr, "data": d1 + [0] * w}})
+    r = ck.impl("c04", {"cases": cases + mal, "bytes": bytecases, "pairs": pairs}, timeout=1500)
     if r.get("crashed"):
         ck.violation("implementation worker crashed on the C04 case set (rc=%s): %s" % (r.get("rc"), r.get("stderr", "")[-300:]), {"cases": "whole C04 set", "stderr": r.get("stderr")})
         ck.finish("coqc (Gen, Tie, Props/C04.v)")
@@ -139,6 +156,16 @@ def main(tier):
                 ck.violation("dtype change of a PackedTensor is not refused with ValueError", rep)
             if o["to_uint8"]["cls"] != "PackedTensor" or o["to_uint8"]["value"].get("data") != c["data"]:
                 ck.violation("to(uint8) of a PackedTensor changed class or values", rep)
+    for pc, o in zip(pairs, r.get("pairs", [])):
+        ck.case(("pair", pc["a"]["bits"], tuple(pc["a"]["shape"]), tuple(pc["b"]["shape"]), tuple(pc["a"]["data"]), tuple(pc["b"]["data"])), nontrivial=True)
+        if "exn" in o:
+            ck.violation("packing a pair of valid tensors raised " + o["exn"], {"pair": pc})
+            continue
+        for name, ab in o.items():
+            ck.count("pair op", name)
+            a, b = ab["packed"], ab["plain"]
+            if a["ok"] != b["ok"] or (a["ok"] and (a["shape"], a["data"]) != (b["shape"], b["data"])):
+                ck.violation(f"op {name} on two PackedTensors differs from the op on their unpacked values (shapes {pc['a']['shape']} and {pc['b']['shape']})", {"pair": pc, "op": name, "packed": a, "plain": b})
     for bc, o in zip(bytecases, r["bytes"]):
         sig = ("bytes", bc["bits"], tuple(bc["shape"]), tuple(bc["data"]))
         ck.count("bytecase bits", bc["bits"])
